@@ -216,6 +216,9 @@ pub struct FaultCfg {
     pub scale_ns: Ns,
     /// never apply a fate to RRQ/WRQ datagrams (duplicate requests are C13's subject)
     pub spare_requests: bool,
+    /// stratified faults: (opcode, block number, fate) forced once each onto the first matching
+    /// datagram sent after 60000 DATA datagrams (the windows around the 16-bit wrap)
+    pub forced: Vec<(u8, u16, Fate)>,
 }
 
 impl Default for FaultCfg {
@@ -233,6 +236,7 @@ impl Default for FaultCfg {
             disk_w: 0,
             scale_ns: 5 * SEC,
             spare_requests: false,
+            forced: Vec::new(),
         }
     }
 }
@@ -587,6 +591,15 @@ impl Inner {
         if applies && self.faults_allowed() && !(self.cfg.spare_requests && is_request) {
             let w = self.cfg.fate_w;
             fate = [Fate::Deliver, Fate::Drop, Fate::Dup, Fate::Delay, Fate::BigDelay, Fate::Late][self.choices.choose("net.fate", &w)];
+        }
+        if !self.cfg.forced.is_empty() && self.stats.data_blocks >= 60000 && data.len() >= 4 && data[0] == 0 {
+            let num = u16::from_be_bytes([data[2], data[3]]);
+            if let Some(i) = self.cfg.forced.iter().position(|(op, n, _)| *op == data[1] && *n == num) {
+                let (_, _, f) = self.cfg.forced.remove(i);
+                fate = f;
+                self.budget_left += 1; // forced faults do not eat the random budget
+                self.stats.count_fault("forced-at-wrap");
+            }
         }
         let base = self.now + BASE_LATENCY_NS;
         let scale = self.cfg.scale_ns;
